@@ -1,6 +1,6 @@
 (* Ldot11 — 802.11 MAC header codec (layers/dot11.go Dot11, as repaired on agent-fixer and agent-ldot11):
    contributions to C19, C05, C06, C07, C01. *)
-From GP Require Import Base Codec MiscLib Ldot11Model Ldot11Proofs.
+From GP Require Import Base Codec MiscLib Ldot11Model Ldot11Proofs Ldot11Rt.
 Open Scope Z_scope.
 
 (* all byte strings (no hypothesis on the octets), all receiver states; no loops *)
@@ -35,27 +35,14 @@ Print Assumptions C07_dot11_junk_free.
 
 (* C06.  The plain statement is false of the code: DecodeFromBytes takes the last four octets of the frame as FCS,
    SerializeTo writes none, and it writes neither the QoS control nor the HT control field (Sweep known findings
-   Sweep-C06-roundtrip-layers.Dot11 / -fixpoint-).  What is true, STATED and tested on every run (rt:/rtn: ops), not proved:
+   Sweep-C06-roundtrip-layers.Dot11 / -fixpoint-).  What is true, and proved below (C06_dot11_roundtrip):
    for a value in the domain d11_wfb (6 bit type that is neither QoS nor the unsupported data subtype 13, no HT control,
    exactly the 6-octet addresses its type carries, 12 bit sequence and 4 bit fragment number) and a payload of at
    least four octets, the fields come back, the payload comes back without its last four octets, and those come back
    as Checksum. *)
-Definition d11_addr6 (a : list Z) : bool := (zlen a =? 6) && bytes_okb a.
-Definition d11_nil (a : list Z) : bool := match a with [] => true | _ => false end.
-Definition d11_wfb (l : dot11) : bool :=
-  let ty := d_type l in let main := ty mod 4 in let fl := d_flags l in
-  let a2 := (main =? 0) || (main =? 2) || ((main =? 1) && d11_ctrl_a2 ty) in
-  let a3 := (main =? 0) || (main =? 2) in
-  let a4 := (main =? 2) && bitb fl 1 && bitb fl 0 in
-  (0 <=? ty) && (ty <? 64) && (0 <=? d_proto l) && (d_proto l <? 4) && (0 <=? fl) && (fl <? 256) &&
-  (0 <=? d_dur l) && (d_dur l <? 65536) &&
-  negb (d11_is_qos ty) && negb (ty =? 54) && negb (bitb fl 7 && (main =? 0)) &&
-  d11_addr6 (d_a1 l) && (if a2 then d11_addr6 (d_a2 l) else d11_nil (d_a2 l)) &&
-  (if a3 then d11_addr6 (d_a3 l) else d11_nil (d_a3 l)) && (if a4 then d11_addr6 (d_a4 l) else d11_nil (d_a4 l)) &&
-  (if a3 then (0 <=? d_seq l) && (d_seq l <? 4096) && (0 <=? d_frag l) && (d_frag l <? 16) else (d_seq l =? 0) && (d_frag l =? 0)).
-
-Definition C06_dot11_roundtrip_statement : Prop := forall l payload fixl csum junk bytes l' old,
-  d11_wfb l = true -> bytes_ok payload -> 4 <= zlen payload ->
+(* the domain d11_wfb and the header d11_hdr are defined in Proofs/Ldot11Rt.v *)
+Theorem C06_dot11_roundtrip : forall l payload fixl csum junk bytes l' old,
+  d11_wfb l = true -> 4 <= zlen payload ->
   d11_serialize l payload fixl csum junk = (Ok bytes, l') ->
   exists d, d11_decode_into old bytes = (d, Ok tt, false) /\
     d_type d = d_type l /\ d_proto d = d_proto l /\ d_flags d = d_flags l /\ d_dur d = d_dur l /\
@@ -63,7 +50,19 @@ Definition C06_dot11_roundtrip_statement : Prop := forall l payload fixl csum ju
     d_qos d = None /\ d_htc d = None /\ d_data d = (d_type l mod 4 =? 2) /\
     d_payload d = firstn (Z.to_nat (zlen payload - 4)) payload /\
     d11_le32 payload (zlen payload - 4) = Ok (d_csum d) /\
-    d_contents d = firstn (Z.to_nat (d11_hdr_len l)) bytes.
+    d_contents d = d11_hdr l /\ bytes = d11_hdr l ++ payload.
+Proof.
+  intros l payload fixl csum junk bytes l' old W Hp E.
+  destruct (d11_roundtrip l payload fixl csum junk bytes l' old W Hp E) as (cs & Ecs & ED).
+  eexists. split; [exact ED|]. cbn [d_type d_proto d_flags d_dur d_a1 d_a2 d_a3 d_a4 d_seq d_frag d_qos d_htc d_data d_payload d_csum d_contents].
+  repeat split; try reflexivity; try exact Ecs.
+  destruct (d11_wfb_spec l W) as (_ & _ & _ & _ & _ & _ & _ & A1 & X2 & X3 & X4 & _). cbv zeta in *.
+  assert (AO : d11_addrs_ok l).
+  { unfold d11_addrs_ok. cbv zeta. repeat split; [exact A1|intros C; rewrite C in X2|intros C; rewrite C in X3|intros C; rewrite C in X4];
+      apply d11_addr6_len; assumption. }
+  rewrite (d11_serialize_eq l payload fixl csum junk AO) in E. congruence.
+Qed.
+Print Assumptions C06_dot11_roundtrip.
 
 (* an instance of the stated relation (a beacon header), by computation *)
 Definition d11_ex : dot11 := mkD11 [] [] 32 0 0 314 [255;255;255;255;255;255] [1;2;3;4;5;6] [1;2;3;4;5;6] [] 291 5 0 None None false.
